@@ -4,9 +4,13 @@
 (* the block's write latch, writes column a, then column b, releases; a     *)
 (* reader takes the read latch, reads a, then b, inside one callback.       *)
 (* ReadLatch = FALSE models a reader that forgets the latch.                *)
+(* AscReaders iterate through a sorted index (Txn.Ascend): as built         *)
+(* (D-ascend-no-latch) their callback runs without the latch - the code     *)
+(* has it commented out, because a commit holds the latch while it waits    *)
+(* for the tree that the scan holds.                                        *)
 (***************************************************************************)
 EXTENDS Integers, FiniteSets, TLC
-CONSTANTS Writers, Readers, ReadLatch, MaxV
+CONSTANTS Writers, Readers, AscReaders, ReadLatch, MaxV, Known
 VARIABLES a, b, wHolder, rHolders, wpc, rpc, got, versions, nextV
 lvars == <<a, b, wHolder, rHolders, wpc, rpc, got, versions, nextV>>
 None == "none"
@@ -20,8 +24,10 @@ WriteA(w) == wpc[w] = "a" /\ a' = nextV /\ wpc' = [wpc EXCEPT ![w] = "b"] /\ UNC
 WriteB(w) == wpc[w] = "b" /\ b' = 2 * nextV /\ versions' = versions \cup {<<nextV, 2 * nextV>>} /\ nextV' = nextV + 1
              /\ wpc' = [wpc EXCEPT ![w] = "u"] /\ UNCHANGED <<a, wHolder, rHolders, rpc, got>>
 WUnlock(w) == wpc[w] = "u" /\ wHolder' = None /\ wpc' = [wpc EXCEPT ![w] = "idle"] /\ UNCHANGED <<a, b, rHolders, rpc, got, versions, nextV>>
-RLock(r)  == rpc[r] = "idle" /\ (ReadLatch => wHolder = None)
-             /\ rHolders' = (IF ReadLatch THEN rHolders \cup {r} ELSE rHolders)
+Unlatched(r) == r \in AscReaders /\ "D-ascend-no-latch" \in Known
+Latched(r) == ReadLatch /\ ~Unlatched(r)
+RLock(r)  == rpc[r] = "idle" /\ (Latched(r) => wHolder = None)
+             /\ rHolders' = (IF Latched(r) THEN rHolders \cup {r} ELSE rHolders)
              /\ rpc' = [rpc EXCEPT ![r] = "a"] /\ UNCHANGED <<a, b, wHolder, wpc, got, versions, nextV>>
 ReadA(r)  == rpc[r] = "a" /\ got' = [got EXCEPT ![r][1] = a] /\ rpc' = [rpc EXCEPT ![r] = "b"] /\ UNCHANGED <<a, b, wHolder, rHolders, wpc, versions, nextV>>
 ReadB(r)  == rpc[r] = "b" /\ got' = [got EXCEPT ![r][2] = b] /\ rpc' = [rpc EXCEPT ![r] = "done"] /\ UNCHANGED <<a, b, wHolder, rHolders, wpc, versions, nextV>>
@@ -30,7 +36,12 @@ LNext == (\E w \in Writers : WLock(w) \/ WriteA(w) \/ WriteB(w) \/ WUnlock(w))
          \/ (\E r \in Readers : RLock(r) \/ ReadA(r) \/ ReadB(r) \/ RUnlock(r))
 LSpec == LInit /\ [][LNext]_lvars
 \* C10: what a reader holds when it finishes its callback is one committed version of the row
-NoTornRead == \A r \in Readers : rpc[r] = "done" => got[r] \in versions
+NoTornRead == \A r \in Readers : rpc[r] = "done" => (got[r] \in versions \/ Unlatched(r))
+\* ... and even an unlatched reader only ever reads values of versions that are committed or being committed
+InFlight == IF wHolder # None THEN {<<nextV, 2 * nextV>>} ELSE {}
+CommittedValues == \A r \in Readers : rpc[r] = "done" =>
+                     /\ \E v \in versions \cup InFlight : v[1] = got[r][1]
+                     /\ \E v \in versions \cup InFlight : v[2] = got[r][2]
 \* a reader never runs inside a writer's critical section
-Exclusion == ReadLatch => (wHolder # None => rHolders = {})
+Exclusion == wHolder # None => rHolders = {}
 =============================================================================
